@@ -2,7 +2,7 @@
 import re
 import core, lib
 from core import call_matches, call_names, op_place, op_local, backward_slice
-from props import C02
+from props import C02, shared
 
 LEVEL = 'other'
 FLOOR = 18
@@ -24,6 +24,8 @@ NARROW_AFTER_CHECK = {
 
 def run(ctx):
     F = ctx.F
+    # nodes of a committed tree stay readable through the overlays: an entry leaves only with the id that owns it
+    shared.owner_id_removal(ctx, '6')
     n = 0
     for fn in PACKERS:
         b = ctx.body(fn)
